@@ -13,6 +13,7 @@ use std::collections::{HashMap, HashSet};
 pub fn gens() -> Vec<Gen> {
     vec![
         Gen { name: "c12.presence", prop: "C12", tags: &["decoy", "presence", "create_sd_claims_object", "src/issuer.rs"], cases: cases_presence, check },
+        Gen { name: "c12.flag_sequence", prop: "C12", tags: &["sticky", "flag", "add_decoy_claims", "sequence"], cases: cases_flag_sequence, check },
         Gen { name: "c12.order", prop: "C12", tags: &["order", "sort", "shuffle", "leak"], cases: cases_order, check },
         Gen { name: "c12.repeat", prop: "C12", tags: &["unique", "repeat"], cases: cases_repeat, check },
         Gen { name: "c12.inert", prop: "C12", tags: &["inert", "verifier", "holder"], cases: cases_inert, check },
@@ -33,6 +34,21 @@ fn cases_presence(rng: &mut Rng, sink: &mut dyn FnMut(J) -> bool) {
         (json!({"iss": "i", "exp": FAR_EXP, "m": [[{"a": {}}]]}), Strategy::AllLevels),
         (json!({"iss": "i", "exp": FAR_EXP, "m": [[{"a": {}}]]}), Strategy::TopLevel),
     ];
+    // wide objects: 1..40 hidden members / elements in one container, at several positions
+    let mut special = special;
+    for w in [1usize, 2, 3, 5, 8, 9, 10, 11, 12, 16, 24, 40] {
+        let wide: serde_json::Map<String, J> = (0..w).map(|i| (format!("m{i}"), json!(i))).collect();
+        let wide = J::Object(wide);
+        let mut top = json!({"iss": "i", "exp": FAR_EXP});
+        for (k, v) in wide.as_object().unwrap() {
+            top[k] = v.clone();
+        }
+        special.push((top, Strategy::TopLevel));
+        special.push((json!({"iss": "i", "exp": FAR_EXP, "o": wide.clone()}), Strategy::AllLevels));
+        special.push((json!({"iss": "i", "exp": FAR_EXP, "l": [wide.clone(), [wide.clone()]], "a": (0..w).collect::<Vec<_>>()}), Strategy::AllLevels));
+        let paths: Vec<String> = (0..w).map(|i| format!("$.o.m{i}")).collect();
+        special.push((json!({"iss": "i", "exp": FAR_EXP, "o": wide.clone()}), Strategy::Custom(paths)));
+    }
     for (claims, s) in special {
         for decoys in [true, false] {
             n += 1;
@@ -87,6 +103,22 @@ fn cases_order(_rng: &mut Rng, sink: &mut dyn FnMut(J) -> bool) {
                     if !sink(json!({"kind": "order", "where": whre, "decoys": decoys, "strategy": strategy, "format": format, "lists": 240})) {
                         return;
                     }
+                }
+            }
+        }
+    }
+}
+
+/// One issuer instance, the decoy flag varying between calls: each credential must follow
+/// ITS OWN flag (decoys on -> every object has one; off -> no unmatched digest at all).
+fn cases_flag_sequence(_rng: &mut Rng, sink: &mut dyn FnMut(J) -> bool) {
+    let mut n = 0;
+    for flags in [vec![true, false], vec![false, true], vec![true, false, false], vec![false, true, false], vec![true, true, false], vec![false, false, true, false]] {
+        for alg in ["ES256", "EdDSA", "HS256"] {
+            for strategy in ["AllLevels", "TopLevel", "NoSD"] {
+                n += 1;
+                if !sink(json!({"kind": "flag_sequence", "alg": alg, "flags": flags, "strategy": strategy, "first_format": if n % 2 == 0 { "compact" } else { "json" }})) {
+                    return;
                 }
             }
         }
@@ -231,6 +263,36 @@ pub fn check(case: &J) -> Verdict {
             for d in &all_unmatched {
                 if !seen.insert(d) {
                     return fail(format!("decoy digest {d} occurs twice in one credential"), "decoys unique across the credential");
+                }
+            }
+            Verdict::Pass
+        }
+        "flag_sequence" => {
+            let alg = case["alg"].as_str().unwrap_or("ES256");
+            let Some(strategy) = Strategy::from_json(&case["strategy"]) else { return Verdict::Trivial };
+            let Some(flags) = case["flags"].as_array() else { return Verdict::Trivial };
+            let mut issuer = sut::new_issuer(alg);
+            for (r, flag) in flags.iter().enumerate() {
+                let decoys = flag.as_bool().unwrap_or(false);
+                let format = if (r % 2 == 0) == (case["first_format"] == "compact") { "compact" } else { "json" };
+                let claims = order_claims(r);
+                let Out::Ok(s) = sut::issue_on(&mut issuer, &claims, &strategy, None, decoys, format) else {
+                    return fail(format!("issuance #{} failed", r + 1), "Ok");
+                };
+                let Some(parts) = Parts::parse(&s, format) else { return Verdict::Trivial };
+                let Some(payload) = parts.payload() else { return Verdict::Trivial };
+                let idx = DiscIndex::new(&parts.disclosures);
+                for (loc, _, sd, _) in object_sd_lists(&payload, &idx) {
+                    let unmatched = sd.iter().filter(|d| !idx.by_digest.contains_key(*d)).count();
+                    if decoys && unmatched == 0 {
+                        return fail(format!("issuance #{} on one issuer instance (flags so far {:?}) has decoys ON but the object at {loc} carries no decoy", r + 1, &flags[..=r]), "decoys exactly when this call asks for them");
+                    }
+                    if !decoys && unmatched > 0 {
+                        return fail(
+                            format!("issuance #{} on one issuer instance (flags so far {:?}) has decoys OFF but the object at {loc} carries {unmatched} digest(s) matching no disclosure", r + 1, &flags[..=r]),
+                            "with decoys disabled every digest matches an issued disclosure",
+                        );
+                    }
                 }
             }
             Verdict::Pass
